@@ -23,6 +23,7 @@ type removeSite struct {
 }
 
 type pairModel struct {
+	fieldBusy    map[*types.Var]bool
 	c            *Ctx
 	memMsgs      *types.Var // mem.mbox.messages
 	fileMsgs     *types.Var // file.mbox.messages
@@ -40,12 +41,12 @@ type pairModel struct {
 	// slice of them) because every call passes such a value
 	assumed    map[ssa.Value]bool
 	helperBusy map[*ssa.Function]bool
-	adds         []removeSite
-	removes      []removeSite
-	loads        []removeSite
-	inits        []removeSite
-	unknown      []removeSite
-	ok           bool
+	adds       []removeSite
+	removes    []removeSite
+	loads      []removeSite
+	inits      []removeSite
+	unknown    []removeSite
+	ok         bool
 }
 
 func (c *Ctx) pairing() *pairModel {
@@ -86,7 +87,13 @@ func (c *Ctx) pairing() *pairModel {
 				}
 			case *ssa.Select:
 				for _, st := range x.States {
-					if st.Dir == types.RecvOnly && eng.SameField(eng.LoadedField(st.Chan), m.fRemove) {
+					// the channel is the field itself, or a parameter bound to it where the
+					// loop is started (go s.maxSizeEnforcer(s.incoming, s.remove, max))
+					ch := eng.StripConv(st.Chan)
+					if prm, isP := ch.(*ssa.Parameter); isP {
+						ch = eng.StripConv(p.Actual(prm))
+					}
+					if st.Dir == types.RecvOnly && eng.SameField(eng.LoadedField(ch), m.fRemove) {
 						m.enforcerLoop = fn
 					}
 				}
@@ -338,6 +345,11 @@ func (m *pairModel) isRemovedSlice(v ssa.Value, depth int) bool {
 			return false
 		}
 	case *ssa.UnOp:
+		// a field of a per-call record (delivery.evicted) that is only ever assigned
+		// append(itself, removed...)
+		if f := eng.LoadedField(v); f != nil && m.isRemovedField(f, depth) {
+			return true
+		}
 		if ad := eng.LoadAddr(v); ad != nil {
 			if cell := eng.CellOf(ad); cell != nil && !eng.CellEscapes(cell) {
 				if _, isSlice := cell.Type().(*types.Pointer).Elem().Underlying().(*types.Slice); !isSlice {
@@ -360,14 +372,47 @@ func (m *pairModel) isRemovedSliceOrSelf(v ssa.Value, depth int) bool {
 	return m.isRemovedSlice(v, depth)
 }
 
+// isRemovedField: f is a slice field of a struct of the storage packages, not one of the
+// message containers, and every store to it in its package is append(f itself, removed...).
+func (m *pairModel) isRemovedField(f *types.Var, depth int) bool {
+	if f.Pkg() == nil || !strings.HasPrefix(f.Pkg().Path(), eng.Mod+"/pkg/storage/") || eng.SameField(f, m.memMsgs) || eng.SameField(f, m.fileMsgs) {
+		return false
+	}
+	if _, isSlice := f.Type().Underlying().(*types.Slice); !isSlice {
+		return false
+	}
+	if m.fieldBusy[f] {
+		return true
+	}
+	if m.fieldBusy == nil {
+		m.fieldBusy = map[*types.Var]bool{}
+	}
+	m.fieldBusy[f] = true
+	defer delete(m.fieldBusy, f)
+	sts := eng.StoresToField(pkgFuncs(m.c.P, strings.TrimPrefix(f.Pkg().Path(), eng.Mod+"/")), f)
+	for _, st := range sts {
+		if !m.isRemovedSliceOrSelf2(st.Store.Val, func(base ssa.Value) bool { return eng.SameField(eng.LoadedField(base), f) }, depth+1) {
+			return false
+		}
+	}
+	return len(sts) > 0
+}
+
 // isRemovedSliceOrSelfCell: append(load(cell), removed...) stored back to the same cell.
 func (m *pairModel) isRemovedSliceOrSelfCell(v ssa.Value, cell *ssa.Alloc, depth int) bool {
+	return m.isRemovedSliceOrSelf2(v, func(base ssa.Value) bool {
+		ad := eng.LoadAddr(base)
+		return ad != nil && eng.CellOf(ad) == cell
+	}, depth)
+}
+
+func (m *pairModel) isRemovedSliceOrSelf2(v ssa.Value, isSelf func(ssa.Value) bool, depth int) bool {
 	if depth > 14 {
 		return false
 	}
 	if call, ok := v.(*ssa.Call); ok && eng.CalleeName(call.Common()) == "builtin.append" {
 		base := call.Call.Args[0]
-		if ad := eng.LoadAddr(base); ad != nil && eng.CellOf(ad) == cell {
+		if isSelf(base) {
 			// elements
 			if sl, ok := call.Call.Args[1].(*ssa.Slice); ok {
 				if al, ok := sl.X.(*ssa.Alloc); ok {
@@ -710,6 +755,19 @@ func (m *pairModel) checkIn(T *ssa.Function, ri ssa.Instruction, effect string, 
 			return v
 		}
 	}
+	// a method handed over as a method value (s.withMailbox(name, true, d.file)): like a
+	// closure, it is lifted to the calls that receive the value
+	if sites, all := m.methodValueSites(T); all && len(sites) > 0 {
+		var oks []string
+		for _, site := range sites {
+			v := m.checkIn(site.Parent(), site, effect, depth+1, seen)
+			if !v.ok {
+				return pairVerdict{false, v.where, fmt.Sprintf("%s receives the method value %s: %s", shortFn(site.Parent()), shortFn(T), v.detail)}
+			}
+			oks = append(oks, shortFn(site.Parent())+": "+v.detail)
+		}
+		return pairVerdict{true, p.InstrPos(ri), "provided where the method value is passed — " + strings.Join(oks, "; ")}
+	}
 	callers := p.CallersOf(T)
 	if len(callers) == 0 || T.Object() != nil && T.Object().Exported() && T.Signature.Recv() != nil && isStoreAPI(T) {
 		return pairVerdict{false, p.InstrPos(ri), fmt.Sprintf("no %s for the message(s) removed at %s: neither in %s nor (API method) anywhere a caller could compensate", effect, p.InstrPos(ri), shortFn(T))}
@@ -732,6 +790,51 @@ func (m *pairModel) checkIn(T *ssa.Function, ri ssa.Instruction, effect string, 
 		return pairVerdict{false, p.InstrPos(ri), fmt.Sprintf("no %s for the removal at %s and no caller in the package provides it", effect, p.InstrPos(ri))}
 	}
 	return pairVerdict{true, p.InstrPos(ri), "provided by callers — " + strings.Join(oks, "; ")}
+}
+
+// methodValueSites returns the calls that receive T as a method value. all is false when T is
+// also called directly or its method value goes anywhere else than straight into a call.
+func (m *pairModel) methodValueSites(T *ssa.Function) (sites []ssa.Instruction, all bool) {
+	if T.Parent() != nil || T.Signature.Recv() == nil {
+		return nil, false
+	}
+	all = true
+	for _, e := range m.c.P.CallersOf(T) {
+		if eng.UnwrapBound(e.Caller.Func) != T || e.Caller.Func == T {
+			all = false
+		}
+	}
+	for _, f := range m.c.P.Funcs {
+		if eng.FuncPkgPath(f) != eng.FuncPkgPath(T) {
+			continue
+		}
+		eng.EachInstr(f, func(in ssa.Instruction) {
+			mc, ok := in.(*ssa.MakeClosure)
+			if !ok {
+				return
+			}
+			g, ok := mc.Fn.(*ssa.Function)
+			if !ok || g.Parent() != nil || g == T || eng.UnwrapBound(g) != T {
+				return
+			}
+			for _, ref := range *mc.Referrers() {
+				if call, ok := ref.(*ssa.Call); ok {
+					isArg := false
+					for _, a := range call.Call.Args {
+						if a == ssa.Value(mc) {
+							isArg = true
+						}
+					}
+					if isArg {
+						sites = append(sites, call)
+						continue
+					}
+				}
+				all = false
+			}
+		})
+	}
+	return sites, all
 }
 
 // isStoreAPI: method of the storage.Store interface.
